@@ -15,6 +15,7 @@ mod cmd_parse;
 mod cmd_fmt;
 mod cmd_formats;
 mod cmd_partial;
+mod cmd_pset;
 
 /// Command families.  To add one: create src/cmd_xxx.rs with
 /// `pub fn dispatch(cmd: &str, v: &J) -> Option<Result<J, String>>`, add `mod cmd_xxx;` above
@@ -29,6 +30,7 @@ const FAMILIES: &[fn(&str, &J) -> Option<Result<J, String>>] = &[
     cmd_fmt::dispatch,
     cmd_formats::dispatch,
     cmd_partial::dispatch,
+    cmd_pset::dispatch,
 ];
 
 fn dispatch(cmd: &str, v: &J) -> Result<J, String> {
